@@ -137,7 +137,10 @@ def check_case(gen: int, kind: str, items, pid0: int, stats: Stats | None = None
         expected_hdr = []
         sizes = []
         for k, (m, h) in enumerate(items):
-            size = reg.get_encoder(m.message_id).size(m)
+            try:
+                size = reg.get_encoder(m.message_id).size(m)
+            except Exception as exc:  # noqa: BLE001 - the public size() of an in-domain message must work
+                bad("size-raised", f"size() of in-domain message #{k} raised {exc!r}")
             sizes.append(size)
             if h is None:
                 exp_pid = (pid0 + sum(1 for (_, hh) in items[:k] if hh is None)) % 256
